@@ -109,11 +109,20 @@ impl HubObs {
         for u in USERS {
             requests.insert(u.to_string(), hub_requests(c, u));
         }
+        // the period and fee parameters are the configured ones (no explored alphabet that observes through HubObs
+        // updates them); the remaining fields (denoms, pause flag) are what the hub reports
+        let mut params: Parameters = c.query(HUB, &HubQ::Parameters {}).expect("params");
+        if let Some((e, u, f, t)) = c.hub_cfg {
+            params.epoch_period = e;
+            params.unbonding_period = u;
+            params.peg_recovery_fee = cosmwasm_std::Decimal::raw(f);
+            params.er_threshold = cosmwasm_std::Decimal::raw(t);
+        }
         HubObs {
             state: hub_state(c),
             stored: hub_stored(c),
             batch: c.query(HUB, &HubQ::CurrentBatch {}).expect("batch"),
-            params: c.query(HUB, &HubQ::Parameters {}).expect("params"),
+            params,
             bsei_supply: token_supply(c, BSEI),
             stsei_supply: token_supply(c, STSEI),
             bsei_bal,
@@ -124,6 +133,14 @@ impl HubObs {
             requests,
             registry: registry_list(c),
         }
+    }
+    /// time of the last undelegation: the newest history entry, or the hub's instantiation
+    pub fn last_undelegation(&self) -> u64 {
+        self.history.iter().map(|h| h.time).max().unwrap_or(crate::deploy::GENESIS)
+    }
+    /// the bSei rate as C03 defines it: backing over claims (1 when either is zero)
+    pub fn bsei_rate_derived(&self) -> cosmwasm_std::Decimal {
+        crate::hubcore::expected_rate(self.state.total_bond_bsei_amount.u128(), self.b_claims())
     }
     pub fn b_claims(&self) -> u128 {
         self.bsei_supply + self.batch.requested_bsei_with_fee.u128()
